@@ -50,8 +50,11 @@ pub fn hist_with_verifies_mode(made: &Made, host: usize, lenient: bool) -> Hist 
             })
             .collect();
         let i2 = inst_name.clone();
+        // the call's place in the trace (packets of the same instant delivered before it are cut, later ones are not)
+        let entry = made.world.trace.entries.iter().position(|e| e.host == host && e.t == *t && matches!(&e.ev, Ev::Api { call: ApiCall::Verify(i, to), .. } if i == inst && to == timeout));
         purges.push(Purge {
             t: *t,
+            entry,
             until: t + timeout,
             filter: Box::new(move |id: &RecId, _l: &Life| {
                 (id.rtype == wire::T_SRV && wire::names_eq_exact(&id.name, &i2))
